@@ -26,6 +26,7 @@ def rule_literal_flag_agreement(ctx):
                 L.setdefault(expr_str(f, n["a"][0]), (f, n))
     r.require(len(L) >= 2, "string parsers assign %s" % sorted(L))
     o = db.fn("output_text", file=OUT)
+    r.names(o, "pc")
     O = set()
     calls = [n for n in o.all_nodes() if n["k"] == "call" and n.get("c") == "add_text" and len(n.get("a", ())) == 3 and expr_str(o, n["a"][0]) == "pc->GetStr()"]
     for n in calls:
@@ -60,6 +61,7 @@ def rule_comment_dispatch(ctx):
                         assigned.setdefault(c, (f, n))
     r.require(len(assigned) >= 3, "comment types assigned: %s" % sorted(assigned))
     o = db.fn("output_text", file=OUT)
+    r.names(o, "pc")
     handled = set()
     for n in o.all_nodes():
         if n["k"] == "call" and (n.get("c") or "").startswith("output_comment_"):
